@@ -21,6 +21,14 @@ reg("C18",
     "Trusts CPython's sorted()/dict ordering for the oracle; domain = namespaces None or non-empty str (what walkers and Lint allow).",
     "DESIGN.md §3 C18")
 
+reg("C02",
+    "differential testing vs. an independent reference WHATWG tokenizer: bounded-exhaustive enumeration over a 46-symbol class alphabet, state-reaching prefixes x all short suffixes, Hypothesis soup/random Unicode",
+    "Exploration with exhaustive sub-domains: all strings of <=3 alphabet symbols in 12 (start state, last start tag, CDATA) configurations, all of length 4 in the data state "
+    "(thorough: <=4 everywhere, 5 in data), ~290 state-reaching prefixes x all suffixes of <=2 (3) symbols, plus generated soup. Token lists must be equal to the reference's. "
+    "Evidence reports reference (state, class) transition coverage. Held on everything explored.",
+    "Trusted: vf/ref/tokenizer.py (own transcription of the June-2020 standard, html.entities.html5 as entity table). DOCTYPE name missing == '' (cannot be told apart).",
+    "DESIGN.md §3 C02")
+
 NOT_APPLICABLE = {}
 
 
